@@ -445,12 +445,15 @@ def rule_regroup(chk):
                    detail_bad='for equations e1..e8 = %s the regrouping gives (destination, no-source, per-source, all) = %s; expected %s'
                               % ([(q.attrs['name'], q.attrs['dest'], q.attrs['sources']) for q in eqs], got, want),
                    detail_ok='8 model equations over 3 destinations: destinations by first appearance, every list in user order, one entry per source')
-        sg = [EM.mock(equations=eqs[:3], has_subgroups=False), EM.mock(equations=eqs[3:], has_subgroups=False)]
+        # (the middle sub-group has no equations: it still carries its condition, pre / post callbacks and update_nnps refresh, which run between its neighbours)
+        sg = [EM.mock(equations=eqs[:3], has_subgroups=False), EM.mock(equations=[], has_subgroups=False, pre='pre', post='post', update_nnps=True, condition=None),
+              EM.mock(equations=eqs[3:], has_subgroups=False)]
         res2 = EM.call(itm, mg, '_make_data', EM.mock(equations=sg, has_subgroups=True))
-        ok2 = isinstance(res2, list) and len(res2) == 2 and all(isinstance(x, AI.Inst) and x.cls.node.name == 'MegaGroup' for x in res2) and \
+        ok2 = isinstance(res2, list) and len(res2) == 3 and all(isinstance(x, AI.Inst) and x.cls.node.name == 'MegaGroup' for x in res2) and \
             [x.args[0] for x in res2] == sg
         chk.decide(ok2, 'regrouping-preserves-order', 'sub-groups-in-listed-order', node=md, file=AE, func='MegaGroup._make_data',
-                   detail_bad='a group of two sub-groups is regrouped as %s: expected one MegaGroup per sub-group, in the listed order' % (res2,),
+                   detail_bad='a group of three sub-groups, the middle one without equations but with pre / post callbacks and update_nnps, is regrouped as %s: expected one MegaGroup '
+                              'per sub-group, in the listed order (the callbacks and the neighbour refresh of an empty sub-group still run)' % (res2,),
                    detail_ok='one MegaGroup per sub-group, in order')
     except (AI.Unsupported, AI.Raised) as e:
         chk.undecided('regrouping-preserves-order', 'model-run', node=md, file=AE, func='MegaGroup._make_data', detail='not interpretable on the model group: %s' % e)
